@@ -273,11 +273,19 @@ impl TryFromHeaderValue for bool {
     }
 }
 
+/// the whole header value must be the integer: `12abc` is not `12`
+fn parse_whole_integer<T: atoi::FromRadix10SignedChecked>(bytes: &[u8]) -> Option<T> {
+    match T::from_radix_10_signed_checked(bytes) {
+        (Some(x), len) if len > 0 && len == bytes.len() => Some(x),
+        _ => None,
+    }
+}
+
 impl TryFromHeaderValue for i32 {
     type Error = ParseHeaderError;
 
     fn try_from_header_value(val: &HeaderValue) -> Result<Self, Self::Error> {
-        atoi::atoi(val.as_bytes()).ok_or(ParseHeaderError::Integer)
+        parse_whole_integer(val.as_bytes()).ok_or(ParseHeaderError::Integer)
     }
 }
 
@@ -285,7 +293,7 @@ impl TryFromHeaderValue for i64 {
     type Error = ParseHeaderError;
 
     fn try_from_header_value(val: &HeaderValue) -> Result<Self, Self::Error> {
-        atoi::atoi(val.as_bytes()).ok_or(ParseHeaderError::Long)
+        parse_whole_integer(val.as_bytes()).ok_or(ParseHeaderError::Long)
     }
 }
 
